@@ -1,0 +1,286 @@
+//! Read-only introspection hooks for external verification harnesses.
+//!
+//! This module exists only when the `verif-hooks` feature is enabled. Nothing in here is used by the crate itself.
+
+use core::ptr::NonNull;
+
+use crate::cc::CcBox;
+use crate::counter_marker::{CounterMarker, Mark};
+use crate::{Cc, Trace, POSSIBLE_CYCLES};
+
+/// White-box view of a managed allocation.
+#[derive(Copy, Clone, Debug, PartialEq, Eq)]
+pub struct Snapshot {
+    /// Address of the `CcBox`.
+    pub box_addr: usize,
+    /// Raw tracing-counter word (mark + tracing counter).
+    pub tracing_word: u16,
+    /// Raw counter word (metadata bit + finalized bit + strong counter).
+    pub counter_word: u16,
+    /// Address of the weak side record, if allocated.
+    pub metadata_addr: Option<usize>,
+    /// Raw weak-counter word of the side record, if allocated.
+    pub weak_word: Option<u16>,
+}
+
+#[inline]
+fn snapshot_box(ptr: NonNull<CcBox<()>>) -> Snapshot {
+    let cc_box = unsafe { ptr.as_ref() };
+    let (tracing_word, counter_word) = cc_box.counter_marker().verif_raw();
+
+    #[cfg(feature = "weak-ptrs")]
+    let (metadata_addr, weak_word) = if cc_box.counter_marker().has_allocated_for_metadata() {
+        let metadata = unsafe { cc_box.get_metadata_unchecked() };
+        (
+            Some(metadata.as_ptr() as usize),
+            Some(unsafe { metadata.as_ref() }.weak_counter_marker.verif_raw()),
+        )
+    } else {
+        (None, None)
+    };
+    #[cfg(not(feature = "weak-ptrs"))]
+    let (metadata_addr, weak_word) = (None, None);
+
+    Snapshot {
+        box_addr: ptr.as_ptr() as usize,
+        tracing_word,
+        counter_word,
+        metadata_addr,
+        weak_word,
+    }
+}
+
+/// Returns the white-box view of the allocation pointed by `cc`.
+#[inline]
+pub fn snapshot<T: ?Sized + Trace>(cc: &Cc<T>) -> Snapshot {
+    let ptr: NonNull<CcBox<T>> = NonNull::from(cc.inner());
+    snapshot_box(ptr.cast())
+}
+
+/// Returns the address of the weak side record pointed by `weak` and its raw weak-counter word.
+#[cfg(feature = "weak-ptrs")]
+#[inline]
+pub fn weak_snapshot<T: ?Sized + Trace>(weak: &crate::weak::Weak<T>) -> Option<(usize, u16)> {
+    weak.verif_metadata().map(|metadata| {
+        (
+            metadata.as_ptr() as usize,
+            unsafe { metadata.as_ref() }.weak_counter_marker.verif_raw(),
+        )
+    })
+}
+
+/// Walk of the buffer of possible cycle roots.
+#[derive(Clone, Debug, Default)]
+pub struct BufferWalk {
+    /// The cached size.
+    pub cached_size: usize,
+    /// The snapshots of the buffered allocations, from the first to the last.
+    pub members: alloc::vec::Vec<Snapshot>,
+    /// `true` if every `prev` link is the inverse of the `next` link it follows and the first element has no `prev`.
+    pub links_ok: bool,
+    /// `false` if the buffer couldn't be accessed.
+    pub accessible: bool,
+}
+
+/// Walks the buffer of possible cycle roots (at most `limit` elements).
+pub fn buffer_walk(limit: usize) -> BufferWalk {
+    POSSIBLE_CYCLES
+        .try_with(|pc| {
+            let mut walk = BufferWalk {
+                cached_size: pc.size(),
+                members: alloc::vec::Vec::new(),
+                links_ok: true,
+                accessible: true,
+            };
+            let mut prev: Option<NonNull<CcBox<()>>> = None;
+            let mut next = pc.first();
+            while let Some(ptr) = next {
+                if walk.members.len() >= limit {
+                    walk.links_ok = false;
+                    break;
+                }
+                unsafe {
+                    if *ptr.as_ref().get_prev() != prev {
+                        walk.links_ok = false;
+                    }
+                    walk.members.push(snapshot_box(ptr));
+                    prev = Some(ptr);
+                    next = *ptr.as_ref().get_next();
+                }
+            }
+            walk
+        })
+        .unwrap_or_default()
+}
+
+/// Operations on the raw counter words of an allocation.
+#[derive(Copy, Clone, Debug, PartialEq, Eq)]
+pub enum CounterOp {
+    /// `increment_counter`
+    IncrementCounter,
+    /// `decrement_counter`
+    DecrementCounter,
+    /// `increment_tracing_counter`
+    IncrementTracingCounter,
+    /// `reset_tracing_counter`
+    ResetTracingCounter,
+    /// `set_finalized`
+    SetFinalized(bool),
+    /// `set_allocated_for_metadata`
+    SetAllocatedForMetadata(bool),
+    /// `set_dropped`
+    SetDropped(bool),
+    /// `mark(NonMarked)`
+    MarkNonMarked,
+    /// `mark(PossibleCycles)`
+    MarkPossibleCycles,
+    /// `mark(InList)`
+    MarkInList,
+    /// `mark(InQueue)`
+    MarkInQueue,
+}
+
+/// Result of [`counter_apply`]: the new words, whether the operation reported an error and the getters' view of the new words.
+#[derive(Copy, Clone, Debug, PartialEq, Eq)]
+pub struct CounterView {
+    /// New raw tracing-counter word.
+    pub tracing_word: u16,
+    /// New raw counter word.
+    pub counter_word: u16,
+    /// `true` if the operation returned `Err`.
+    pub failed: bool,
+    /// `counter()`
+    pub counter: u16,
+    /// `tracing_counter()`
+    pub tracing_counter: u16,
+    /// `needs_finalization()` (always `true` without the `finalization` feature)
+    pub needs_finalization: bool,
+    /// `has_allocated_for_metadata()` (always `false` without the `weak-ptrs` feature)
+    pub has_allocated_for_metadata: bool,
+    /// `is_dropped()` (always `false` without the `weak-ptrs` feature)
+    pub is_dropped: bool,
+    /// 0 = not marked, 1 = possible cycles, 2 = in list, 3 = in queue, as reported by the `is_*` getters
+    pub mark: u8,
+    /// `is_not_marked()`
+    pub is_not_marked: bool,
+    /// `is_in_list_or_queue()`
+    pub is_in_list_or_queue: bool,
+}
+
+/// Applies `op` to a `CounterMarker` made of the given raw words. `None` performs no operation.
+///
+/// The words must not hold the reserved value in the fields read by `op` (the crate debug-asserts it).
+pub fn counter_apply(tracing_word: u16, counter_word: u16, op: Option<CounterOp>) -> CounterView {
+    let cm = CounterMarker::verif_from_raw(tracing_word, counter_word);
+    let mut failed = false;
+    if let Some(op) = op {
+        match op {
+            CounterOp::IncrementCounter => failed = cm.increment_counter().is_err(),
+            CounterOp::DecrementCounter => failed = cm.decrement_counter().is_err(),
+            CounterOp::IncrementTracingCounter => failed = cm.increment_tracing_counter().is_err(),
+            CounterOp::ResetTracingCounter => cm.reset_tracing_counter(),
+            #[cfg(feature = "finalization")]
+            CounterOp::SetFinalized(value) => cm.set_finalized(value),
+            #[cfg(not(feature = "finalization"))]
+            CounterOp::SetFinalized(_) => {},
+            #[cfg(feature = "weak-ptrs")]
+            CounterOp::SetAllocatedForMetadata(value) => cm.set_allocated_for_metadata(value),
+            #[cfg(feature = "weak-ptrs")]
+            CounterOp::SetDropped(value) => cm.set_dropped(value),
+            #[cfg(not(feature = "weak-ptrs"))]
+            CounterOp::SetAllocatedForMetadata(_) | CounterOp::SetDropped(_) => {},
+            CounterOp::MarkNonMarked => cm.mark(Mark::NonMarked),
+            CounterOp::MarkPossibleCycles => cm.mark(Mark::PossibleCycles),
+            CounterOp::MarkInList => cm.mark(Mark::InList),
+            CounterOp::MarkInQueue => cm.mark(Mark::InQueue),
+        }
+    }
+    let (tracing_word, counter_word) = cm.verif_raw();
+
+    #[cfg(feature = "weak-ptrs")]
+    let is_dropped = cm.is_dropped();
+    #[cfg(not(feature = "weak-ptrs"))]
+    let is_dropped = false;
+
+    CounterView {
+        tracing_word,
+        counter_word,
+        failed,
+        // The getters debug-assert that the reserved value is not stored, so don't call them in that case
+        counter: if is_reserved(counter_word) { u16::MAX } else { cm.counter() },
+        tracing_counter: if is_reserved(tracing_word) { u16::MAX } else { cm.tracing_counter() },
+        #[cfg(feature = "finalization")]
+        needs_finalization: cm.needs_finalization(),
+        #[cfg(not(feature = "finalization"))]
+        needs_finalization: true,
+        #[cfg(feature = "weak-ptrs")]
+        has_allocated_for_metadata: cm.has_allocated_for_metadata(),
+        #[cfg(not(feature = "weak-ptrs"))]
+        has_allocated_for_metadata: false,
+        is_dropped,
+        mark: if cm.is_in_possible_cycles() {
+            1
+        } else if cm.is_in_list() {
+            2
+        } else if cm._is_in_queue() {
+            3
+        } else {
+            0
+        },
+        is_not_marked: cm.is_not_marked(),
+        is_in_list_or_queue: cm.is_in_list_or_queue(),
+    }
+}
+
+#[inline]
+fn is_reserved(word: u16) -> bool {
+    (word & 0x3FFF) == 0x3FFF
+}
+
+/// Operations on the raw weak-counter word of a side record.
+#[cfg(feature = "weak-ptrs")]
+#[derive(Copy, Clone, Debug, PartialEq, Eq)]
+pub enum WeakCounterOp {
+    /// `increment_counter`
+    IncrementCounter,
+    /// `decrement_counter`
+    DecrementCounter,
+    /// `set_accessible`
+    SetAccessible(bool),
+}
+
+/// Applies `op` to a `WeakCounterMarker` made of the given raw word.
+///
+/// Returns the new word, whether the operation reported an error, `counter()` and `is_accessible()`.
+#[cfg(feature = "weak-ptrs")]
+pub fn weak_counter_apply(word: u16, op: Option<WeakCounterOp>) -> (u16, bool, u16, bool) {
+    use crate::weak::weak_counter_marker::WeakCounterMarker;
+
+    let wcm = WeakCounterMarker::verif_from_raw(word);
+    let mut failed = false;
+    if let Some(op) = op {
+        match op {
+            WeakCounterOp::IncrementCounter => failed = wcm.increment_counter().is_err(),
+            WeakCounterOp::DecrementCounter => failed = wcm.decrement_counter().is_err(),
+            WeakCounterOp::SetAccessible(value) => wcm.set_accessible(value),
+        }
+    }
+    (wcm.verif_raw(), failed, wcm.counter(), wcm.is_accessible())
+}
+
+/// The words `CounterMarker::new_with_counter_to_one` starts from.
+pub fn counter_new(already_finalized: bool) -> (u16, u16) {
+    CounterMarker::new_with_counter_to_one(already_finalized).verif_raw()
+}
+
+/// The word `WeakCounterMarker::new` starts from.
+#[cfg(feature = "weak-ptrs")]
+pub fn weak_counter_new(accessible: bool) -> u16 {
+    crate::weak::weak_counter_marker::WeakCounterMarker::new(accessible).verif_raw()
+}
+
+/// Size and alignment of the header every managed allocation starts with (a `CcBox<()>`).
+pub fn header_layout() -> (usize, usize) {
+    let layout = alloc::alloc::Layout::new::<CcBox<()>>();
+    (layout.size(), layout.align())
+}
